@@ -17,13 +17,17 @@ import (
 	"context"
 	"encoding/binary"
 	"fmt"
+	"os"
+	"runtime/pprof"
 	"sort"
 	"strings"
+	"time"
 
 	"github.com/spikeekips/mitum/base"
 	"github.com/spikeekips/mitum/isaac"
 	isaacdatabase "github.com/spikeekips/mitum/isaac/database"
 	leveldbstorage "github.com/spikeekips/mitum/storage/leveldb"
+	"github.com/spikeekips/mitum/util/encoder"
 	"github.com/syndtr/goleveldb/leveldb"
 	"github.com/syndtr/goleveldb/leveldb/opt"
 	"github.com/syndtr/goleveldb/leveldb/storage"
@@ -130,7 +134,7 @@ func execScenario(sc scenario) (*run, error) {
 		w.newBlock(bs)
 	}
 	tee := newTeeStorage()
-	d, err := openDB(w, tee, &opt.Options{WriteBuffer: 512 << 20, NoWriteMerge: true, NoSync: true})
+	d, err := openDB(w, tee, &opt.Options{WriteBuffer: 24 << 20, NoWriteMerge: true, NoSync: true})
 	if err != nil {
 		return nil, err
 	}
@@ -164,7 +168,7 @@ func execScenario(sc scenario) (*run, error) {
 // crash state: a fresh storage holding exactly the selected records (in order)
 func buildState(recs [][]byte, k int, drop map[int]bool) storage.Storage {
 	mem := storage.NewMemStorage()
-	raw, err := leveldb.Open(mem, &opt.Options{WriteBuffer: 512 << 20, NoSync: true})
+	raw, err := leveldb.Open(mem, &opt.Options{WriteBuffer: 24 << 20, NoSync: true})
 	if err != nil {
 		panic(err)
 	}
@@ -234,13 +238,23 @@ func (w *world) allReads(d *db) *reads {
 		add(fmt.Sprintf("map:%d", g), obj(found, err, func() int64 { return mid(m) }))
 	}
 	for k := 0; k <= w.maxKey+1; k++ {
-		st, found, err := c.State(keyName(k))
-		add(fmt.Sprintf("state:%d", k), obj(found, err, func() int64 {
-			if id, ok := w.stateID[st.Hash().String()]; ok {
-				return int64(id)
+		// StateBytes + one decode per distinct body (State decodes JSON on every read); the object read
+		// State() is taken for the reserved keys and a sample
+		_, _, body, found, err := c.StateBytes(keyName(k))
+		v := obj(found, err, func() int64 { return w.stateIDOfBody(body) })
+		if k < 16 || k%37 == 0 {
+			st, found2, err2 := c.State(keyName(k))
+			v2 := obj(found2, err2, func() int64 {
+				if id, ok := w.stateID[st.Hash().String()]; ok {
+					return int64(id)
+				}
+				return unknown
+			})
+			if v2 != v {
+				v = -4 // State and StateBytes disagree
 			}
-			return unknown
-		}))
+		}
+		add(fmt.Sprintf("state:%d", k), v)
 	}
 	for i, op := range w.inops {
 		found, err := c.ExistsInStateOperation(op)
@@ -263,9 +277,38 @@ func (w *world) allReads(d *db) *reads {
 	if pol := c.LastNetworkPolicy(); pol == nil {
 		add("policy", notFound)
 	} else {
-		add("policy", int64(pol.MaxOperationsInProposal())-100) // = height of the block that set it
+		add("policy", w.policyStateID(int64(pol.MaxOperationsInProposal())-100)) // the policy state of the block that set it
 	}
 	return r
+}
+
+func (w *world) stateIDOfBody(body []byte) int64 {
+	if id, ok := w.bodyID[string(body)]; ok {
+		return id
+	}
+	var st base.State
+	id := unknown
+	if err := encoderDecode(w, body, &st); err == nil && st != nil {
+		if i, ok := w.stateID[st.Hash().String()]; ok {
+			id = int64(i)
+		}
+	}
+	w.bodyID[string(body)] = id
+	return id
+}
+
+func (w *world) policyStateID(h int64) int64 {
+	for _, b := range w.blocks {
+		if b.spec.H != h {
+			continue
+		}
+		for i, st := range b.states {
+			if b.keyids[i] == 1 {
+				return int64(w.stateID[st.Hash().String()])
+			}
+		}
+	}
+	return unknown
 }
 
 func b2i(b bool) int64 {
@@ -342,10 +385,15 @@ func (w *world) specCheck(r *reads, last int) string {
 // ------------------------------------------------------------------ abstract form of the records for the Coq model
 
 type absCtx struct {
+	live     map[string]map[string]bool // area term -> live raw keys
 	w        *world
 	pids     map[string]int
 	pidH     []int64
 	valCache map[string]string
+}
+
+func encoderDecode(w *world, body []byte, st *base.State) error {
+	return encoder.Decode(w.enc, body, st)
 }
 
 func be64(b []byte) int64 { return int64(binary.BigEndian.Uint64(b)) }
@@ -437,7 +485,7 @@ func (c *absCtx) absOp(o kvop) (area string, term string, ok bool) {
 	if o.del {
 		return area, "(Del " + key + ")", true
 	}
-	val := "(0, None)"
+	val := "(V 0 None)"
 	switch kind {
 	case "state", "map", "proof", "proofbh":
 		ck := kind + string(o.v)
@@ -456,27 +504,27 @@ func (c *absCtx) absVal(kind string, b []byte) string {
 	case "state":
 		var st base.State
 		if err := isaacdatabase.ReadDecodeFrame(c.w.encs, b, &st); err != nil {
-			return "(999999, None)"
+			return "(V 999999 None)"
 		}
 		id := c.w.stateID[st.Hash().String()]
 		if base.IsSuffrageNodesState(st) {
 			sv := st.Value().(base.SuffrageNodesStateValue) //nolint:forcetypeassert //...
-			return fmt.Sprintf("(%d, Some %s)", id, vh.Z(sv.Height().Int64()))
+			return fmt.Sprintf("(V %d (Some %s))", id, vh.Z(sv.Height().Int64()))
 		}
-		return fmt.Sprintf("(%d, None)", id)
+		return fmt.Sprintf("(V %d None)", id)
 	case "map":
 		var m base.BlockMap
 		if err := isaacdatabase.ReadDecodeFrame(c.w.encs, b, &m); err != nil {
-			return "(999999, None)"
+			return "(V 999999 None)"
 		}
-		return fmt.Sprintf("(%d, None)", c.w.mapID[m.Manifest().Hash().String()])
+		return fmt.Sprintf("(V %d None)", c.w.mapID[m.Manifest().Hash().String()])
 	default:
 		var p base.SuffrageProof
 		if err := isaacdatabase.ReadDecodeFrame(c.w.encs, b, &p); err != nil {
-			return "(999999, None)"
+			return "(V 999999 None)"
 		}
 		sv := p.State().Value().(base.SuffrageNodesStateValue) //nolint:forcetypeassert //...
-		return fmt.Sprintf("(%d, Some %s)", c.w.proofID[p.Map().Manifest().Hash().String()], vh.Z(sv.Height().Int64()))
+		return fmt.Sprintf("(V %d (Some %s))", c.w.proofID[p.Map().Manifest().Hash().String()], vh.Z(sv.Height().Int64()))
 	}
 }
 
@@ -485,7 +533,49 @@ func (c *absCtx) absRecord(rec []byte) (string, bool) {
 	ops := decodeRecord(rec)
 	var area string
 	items := make([]string, 0, len(ops))
+	if c.live == nil {
+		c.live = map[string]map[string]bool{}
+	}
+	// a record that deletes every live key of its prefix storage (RemoveByPrefix) is rendered as [Clear]
+	if len(ops) > 0 && ops[0].del {
+		if a, _, ok := c.area(ops[0].k); ok {
+			alldel, same := true, true
+			dels := map[string]bool{}
+			for _, o := range ops {
+				a2, _, ok2 := c.area(o.k)
+				if !o.del {
+					alldel = false
+				}
+				if !ok2 || a2 != a {
+					same = false
+				}
+				dels[string(o.k)] = true
+			}
+			if alldel && same && len(dels) == len(c.live[a]) {
+				covers := true
+				for k := range c.live[a] {
+					if !dels[k] {
+						covers = false
+					}
+				}
+				if covers {
+					c.live[a] = map[string]bool{}
+					return "(" + a + ", [Clear])", true
+				}
+			}
+		}
+	}
 	for _, o := range ops {
+		if a, _, ok := c.area(o.k); ok {
+			if c.live[a] == nil {
+				c.live[a] = map[string]bool{}
+			}
+			if o.del {
+				delete(c.live[a], string(o.k))
+			} else {
+				c.live[a][string(o.k)] = true
+			}
+		}
 		a, t, ok := c.absOp(o)
 		if !ok {
 			return "", false
@@ -579,7 +669,12 @@ func phase(o sop) string {
 // ------------------------------------------------------------------ main
 
 func runScenario(o *vh.Opts, sc scenario, res *vh.Result, cases *vh.Cases, coqPoints int, verbose bool) {
+	t0 := time.Now()
 	r, err := execScenario(sc)
+	tExec := time.Since(t0)
+	defer func() {
+		res.Note(fmt.Sprintf("%s: scenario run %.1fs, crash states + recovery + reads %.1fs", sc.Name, tExec.Seconds(), time.Since(t0).Seconds()-tExec.Seconds()))
+	}()
 	if err != nil {
 		res.Fail("harness-error", err.Error(), replay{Scenario: sc})
 		return
@@ -671,12 +766,22 @@ func runScenario(o *vh.Opts, sc scenario, res *vh.Result, cases *vh.Cases, coqPo
 		}
 		pts = append(pts, fmt.Sprintf("(%d, %s, %s)", p.k, vh.List(ds), w.coqQueries(p.rd, qr, false)))
 	}
-	cases.Add("("+vh.List(recs)+",\n "+vh.List(pts)+")", map[string]any{"scenario": sc, "points": len(pts)})
+	var sps []string
+	for _, sp := range r.spans {
+		kind := map[string]string{"W": "SBlockWrite", "M": "SPermMerge", "C": "SRemoveTemp"}[sp.op.T]
+		sps = append(sps, fmt.Sprintf("(%s, %d, %d)", kind, sp.a, sp.b))
+	}
+	cases.Add("("+vh.List(recs)+",\n "+vh.List(sps)+",\n "+vh.List(pts)+")", map[string]any{"scenario": sc, "points": len(pts)})
 	res.Distribution["model_crash_states"] += len(pts)
 }
 
 func main() {
 	o := vh.ParseFlags()
+	if pf := os.Getenv("C21_CPUPROFILE"); pf != "" {
+		f, _ := os.Create(pf)
+		_ = pprof.StartCPUProfile(f)
+		defer pprof.StopCPUProfile()
+	}
 	res := vh.NewResult("one evaluation = one crash state (the first k storage writes of a real run, rebuilt on a fresh storage) recovered by the real startup code and read completely through the Center; non-trivial = k strictly inside an operation (block write + temp merge, permanent merge, temp removal)")
 	if o.Replay != "" {
 		var rp replay
